@@ -29,6 +29,8 @@ EXPLANATION = (
   ' (LINT-l) no tuple / list / set display of the anchored modules lists the same computed component twice and no dict display repeats a key (a key or fingerprint built that way cannot tell apart what the missing component would have);'
   ' (STATE-share) no assignment stores a container field of one object (a field the package updates in place) into a field of another object without copying it, so an in-place update of one object never changes another;'
   " (ITEM-source) an object built once per item of an inner loop is filled only with values that derive from that item or do not vary with the loops, never with a value of the enclosing container standing where the item's own belongs;"
+  ' (LOOP-break) no loop over the items of a collection is left by a branch that does nothing but `break` on a test about the item (end-of-input sentinels, flags set in the loop body and searches whose variable is read afterwards excepted): an item that is to be skipped does not end the processing of the items after it;'
+  ' (FIN-regex) as in C13 for the white-space collapsing substitution;'
 )
 RULE_TEXT = "per guard x ordering table, per grid, per call site, per truth table"
 UNDECIDED = ["interval arithmetic under arbitrary nesting as values", "text appears once each, in document order, nothing moved between regions (data dependent)",
@@ -168,4 +170,5 @@ def run(ctx):
   _c15.check_registry(ctx, _MF(ctx.ix))
   ncp = isdrules.check_clone_pruning(ctx)
   ctx.floor("CLONE-prune", "pruning guards of the per-region clone", ncp, 1)
+  common.check_regex_probes(ctx, ["ttconv.isd"], floor=1)
   common.check_history_independence(ctx, common.CORE)
